@@ -368,10 +368,12 @@ def add_kernel_symmetry(ctx, eng: SiblingEngine, rule: str = 'R09.8', classes: O
         want_first = {C.mk_cmp('eq', elem(sx, False), elem(fx, False))}
         want_last = {C.mk_cmp('eq', elem(sx, True), elem(fx, True))}
         got = set()
+        from .rules_misc import _top_env_of
+        env_w = _top_env_of(fam.wrapper)        # once-assigned locals (`x = self.x`) read through to their definitions
         for n in ast.walk(fam.wrapper.node):
             if isinstance(n, ast.Assert):
                 try:
-                    c_ = C.canon_cond(n.test, C.Env())
+                    c_ = C.canon_cond(n.test, env_w)
                 except C.CanonError:
                     continue
                 got |= set(c_[1]) if c_[0] == 'and' else {c_}
